@@ -25,6 +25,8 @@ type Clause struct {
 	File  string
 	Line  int
 	Pkg   string
+	Derived bool     // `derives`: follows from the ensures clauses named in From
+	From    []string
 }
 
 type LoopSpec struct {
@@ -50,6 +52,7 @@ type Contract struct {
 	Line     int
 	Options  map[string]string
 	GhostSets []*GhostSet
+	AllocBound *Clause // allocbound <int expr over entry values>: every sized allocation requests at most this many elements
 }
 
 // GhostSet: "ghostset name(obj) = value [when cond]" -- a ghost field update the function performs on return.
@@ -83,6 +86,7 @@ type Lemma struct {
 }
 
 type GroundOb struct {
+	Bound string // non-empty: a bounded stand-in (never counted as proved), with its stated bound
 	Name  string
 	Props []string
 	Kind  string   // e.g. tag, eval
@@ -337,6 +341,22 @@ func (cs *ContractSet) loadFile(path string, goFile bool, pkgName string, assume
 			cur, curGlobal = nil, false
 			curLemma = &Lemma{Name: rest, File: path, Line: l.line}
 			cs.Lemmas = append(cs.Lemmas, curLemma)
+		case "bounded":
+			// bounded[C15,C05] name : <stated bound> :: <Go boolean expression run in-package on the real code>
+			cur, curLemma, curGlobal = nil, nil, false
+			i := strings.Index(rest, ":")
+			j := strings.Index(rest, "::")
+			if i < 0 || j < 0 || j <= i {
+				return fmt.Errorf("%s:%d: bounded needs 'name : bound :: expr'", path, l.line)
+			}
+			g := &GroundOb{File: path, Line: l.line, Name: strings.TrimSpace(rest[:i]), Kind: pkgName, Bound: strings.TrimSpace(rest[i+1 : j])}
+			g.Args = []string{strings.TrimSpace(rest[j+2:])}
+			if label != "" {
+				for _, p := range strings.Split(label, ",") {
+					g.Props = append(g.Props, strings.TrimSpace(p))
+				}
+			}
+			cs.Grounds = append(cs.Grounds, g)
 		case "ground":
 			// ground[C07,C16] name : <Go boolean expression evaluated in-package on the real code>
 			cur, curLemma, curGlobal = nil, nil, false
@@ -394,6 +414,30 @@ func (cs *ContractSet) loadFile(path string, goFile bool, pkgName string, assume
 				continue
 			}
 			return fmt.Errorf("%s:%d: bare invariant (use: loop <k> invariant ...)", path, l.line)
+		case "allocbound":
+			if cur == nil {
+				return fmt.Errorf("%s:%d: allocbound outside func block", path, l.line)
+			}
+			c, err := mkClause("allocbound", label, rest, l.line, nil)
+			if err != nil {
+				return err
+			}
+			cur.AllocBound = c
+		case "derives":
+			if cur == nil {
+				return fmt.Errorf("%s:%d: derives outside func block", path, l.line)
+			}
+			i := strings.LastIndex(rest, " from ")
+			if i < 0 {
+				return fmt.Errorf("%s:%d: derives <expr> from <labels>", path, l.line)
+			}
+			c, err := mkClause("ensures", label, strings.TrimSpace(rest[:i]), l.line, nil)
+			if err != nil {
+				return err
+			}
+			c.Derived = true
+			c.From = strings.Fields(strings.ReplaceAll(rest[i+6:], ",", " "))
+			cur.Ensures = append(cur.Ensures, c)
 		case "requires", "ensures", "modifies":
 			if cur == nil {
 				return fmt.Errorf("%s:%d: clause outside func block", path, l.line)
